@@ -131,6 +131,10 @@ def run_engine(tier, seed, kinds="XFC", sizes=None):
         for k, v in r["verdicts"].get(COV, {}).items():
             stats["cover." + k] = stats.get("cover." + k, 0) + v
         for l in r["plan"]:
+            if l.startswith("# envcases "):
+                t = l.split()
+                for k, v in zip(t[1::2], t[2::2]):
+                    stats["env." + k] = stats.get("env." + k, 0) + int(v)
             if l.startswith("# derived "):
                 t = l.split()
                 for k, v in zip(t[2::2], t[3::2]):
